@@ -365,6 +365,13 @@ fn gen_c08(rng: &mut Rng, tier: Tier, with_panics: bool) -> LoopScn {
     gen_alloc_script(rng, &mut s, true);
     if with_panics {
         gen_panic(rng, &mut s, true);
+        // The input counters run inside the generation phase: a panic there
+        // is a panic of input generation.
+        if s.entry.has_inputs() && s.input_counters.iter().any(|&b| b) && rng.chance(1, 5) {
+            if let Some(p) = &mut s.panic {
+                p.phase = PanicPhase::Counter;
+            }
+        }
         // Sometimes a second site on other threads, at its own phase / call.
         if rng.chance(3, 10) {
             let first = s.panic.clone();
